@@ -280,6 +280,11 @@ def sem_oracle(k, s):
     jo = toks(spec).get("jout")
     if jo is not None:
         FLAT_STATS["jdefined"] = FLAT_STATS.get("jdefined", 0) + 1
+        if toks(spec).get("jstatic") == "1":
+            # every hypothesis of the whole-program theorem (C01_program_preserved) holds: its conclusion is about the flat machine
+            FLAT_STATS["theorem"] = FLAT_STATS.get("theorem", 0) + 1
+            if fl is None or fl != jo:
+                return "the whole-program theorem applies (interpreter answer %r, names checked) but the flat shell machine prints %r" % (hexs(jo)[:300], hexs(fl or "")[:300])
         if toks(spec).get("status") == "0" and toks(spec).get("out") != jo:
             return "the source semantics J of the simulation theorems (Sem/JRun.v) prints %r, the reference semantics Sem/Src.v prints %r" % (hexs(jo)[:300], hexs(toks(spec).get("out", ""))[:300])
     if obs_equal("run", o, spec):
@@ -351,17 +356,19 @@ def run_sem_round(ctx, ck, name, oracles, n, seed_off):
 
 
 def run_c01(ctx, ck):
-    IGNORED_KEYS.add("flat"); IGNORED_KEYS.add("jout")
+    IGNORED_KEYS.add("flat"); IGNORED_KEYS.add("jout"); IGNORED_KEYS.add("jstatic")
     run_sem(ctx, ck, ["sem-scalar"], [sem_oracle], 1500, 10000)
     ctx.cov["flat_shell_model_validated_against_bash"] = FLAT_STATS.get("defined", 0)
     ctx.cov["source_semantics_J_validated_against_reference"] = FLAT_STATS.get("jdefined", 0)
+    ctx.cov["programs_on_which_every_hypothesis_of_the_whole_program_theorem_holds"] = FLAT_STATS.get("theorem", 0)
 
 
 def run_c02(ctx, ck):
-    IGNORED_KEYS.add("flat"); IGNORED_KEYS.add("jout")
+    IGNORED_KEYS.add("flat"); IGNORED_KEYS.add("jout"); IGNORED_KEYS.add("jstatic")
     run_sem(ctx, ck, ["sem-funcs"], [sem_oracle], 1200, 8000)
     ctx.cov["flat_shell_model_with_call_oracle_validated_against_bash"] = FLAT_STATS.get("defined", 0)
     ctx.cov["source_semantics_J_validated_against_reference"] = FLAT_STATS.get("jdefined", 0)
+    ctx.cov["programs_on_which_every_hypothesis_of_the_whole_program_theorem_holds"] = FLAT_STATS.get("theorem", 0)
 
 
 def run_c03(ctx, ck):
